@@ -391,6 +391,22 @@ C13_LEN = {"quick": 3, "thorough": 3}
 C13_SIM = {"quick": (300, 7), "thorough": (2500, 8)}
 
 
+def _c13_judge(inputs, tag):
+    """inputs of ONE universe -> (harness records, verdicts)"""
+    inp = os.path.join(WORK, f"{tag}_in.ndjson")
+    outp = os.path.join(WORK, f"{tag}_out.ndjson")
+    write_ndjson(inp, inputs)
+    run_harness(["replay-comb", inp, outp])
+    recs = read_ndjson(outp)
+    r = tlc("Trace_Combinators.tla", os.path.join(SPEC, "Trace_Combinators.cfg"), workers=1,
+            env={"TRACE": outp}, timeout=3000, tag="tr" + tag, xss=True, heap="6g")
+    require_ok(r, "Trace_Combinators")
+    vs = tlc_lines(r["out"], "VERDICT")
+    if len(vs) != len(recs):
+        raise ToolError(f"Trace_Combinators judged {len(vs)} of {len(recs)} inputs")
+    return recs, vs
+
+
 def check_c13(tier):
     t0 = time.time()
     inputs = []
@@ -420,17 +436,20 @@ def check_c13(tier):
     inputs.extend(got)
     for k, g in enumerate(inputs):
         g["id"] = f"k{k}"
-    inp = os.path.join(WORK, "comb_in.ndjson")
-    outp = os.path.join(WORK, "comb_out.ndjson")
-    write_ndjson(inp, inputs)
-    run_harness(["replay-comb", inp, outp])
-    recs = read_ndjson(outp)
-    r = tlc("Trace_Combinators.tla", os.path.join(SPEC, "Trace_Combinators.cfg"), workers=1,
-            env={"TRACE": outp}, timeout=3000, tag="trcomb", xss=True, heap="6g")
-    require_ok(r, "Trace_Combinators")
-    vs = tlc_lines(r["out"], "VERDICT")
-    if len(vs) != len(recs):
-        raise ToolError(f"Trace_Combinators judged {len(vs)} of {len(recs)} inputs")
+    recs, vs = _c13_judge(inputs, "comb")
+    # every placement of @allow.skipped on feature / rule / scenario (its own universe)
+    cfg = os.path.join(WORK, "Gen_Combinators_tagmatrix.cfg")
+    _cfg(cfg, "Spec", [("U", "<- UKT"), ("MaxLen", "= 0"), ("Group", '= "tagmatrix"')], invs=("Dump",))
+    r = tlc("Gen_Combinators.tla", cfg, workers=1, timeout=600, tag="gencombtag")
+    require_ok(r, "Gen_Combinators tagmatrix")
+    tagin = tlc_lines(r["out"], "REPLAY")
+    for k, g in enumerate(tagin):
+        g["id"] = f"t{k}"
+    gens.append({"mode": "exhaustive:tagmatrix", "universe": "UKT", "sequences": len(tagin), "wall_s": r["wall_s"]})
+    recs2, vs2 = _c13_judge(tagin, "combtag")
+    inputs = inputs + tagin
+    recs = recs + recs2
+    vs = vs + vs2
     byid = {x["id"]: x for x in recs}
     violations = []
     for v in vs:
